@@ -345,12 +345,19 @@ def sparse_cases(ctx):
     for r in itertools.permutations(range(nc), 3):
         for zc in range(3):
             rows.append((list(r), zc))
+    negs = [None] * len(rows)
+    # stored columns that hold a purely negative deflection (no sample above zero): still signal
+    for r in itertools.permutations(range(nc), 3):
+        for ng in range(3):
+            rows.append((list(r), None))
+            negs.append(ng)
     prof = [[int(x) for x in np.roll(np.arange(1, nc + 1), k)] for k in range(len(rows))]
     for wh in ('absent', 'mixing'):
         spec = {'templates': 'sparse', 'geometry': 'grid', 'n_channels': nc, 'n_templates': len(rows),
                 'n_spikes': len(rows) + 2, 'whitening': wh, 'profile': prof, 'features': 'absent',
                 'tfeatures': 'absent', 'raw': False, 'nsw': 3, 'fill': ctx.seed,
-                'sparse_cols': [r for r, _ in rows], 'sparse_zero': [z for _, z in rows]}
+                'sparse_cols': [r for r, _ in rows], 'sparse_zero': [z for _, z in rows],
+                'sparse_neg': negs}
         cases.append({'kind': 'sparse', 'spec': spec})
     return cases
 
